@@ -91,6 +91,19 @@ type op struct {
 	AllowMissing bool     `json:"allow_missing,omitempty"`
 	Now          int64    `json:"now,omitempty"`
 	Cands        []string `json:"cands,omitempty"` // ids the scripted RNG yields, try by try
+	// Model-level write options of UpdateMode / DeleteMode (the servers cannot pass them)
+	CreateIfAbsent bool  `json:"create_if_absent,omitempty"` // resource.WithCreateIfAbsent()
+	ExpectAbsent   bool  `json:"expect_absent,omitempty"`    // resource.WithExpectAbsent()
+	Expected       *mode `json:"expected,omitempty"`         // resource.WithExpectedValue(mode)
+}
+
+func (o op) hasWriteOpts() bool { return o.CreateIfAbsent || o.ExpectAbsent || o.Expected != nil }
+
+func (o op) expectedToken() string {
+	if o.Expected == nil {
+		return "-"
+	}
+	return o.Expected.String()
 }
 
 func b01(b bool) string {
@@ -124,8 +137,14 @@ func (o op) line() string {
 	case "add", "setactive":
 		return o.Kind + " " + m
 	case "update", "s.update":
+		if o.Kind == "update" && o.hasWriteOpts() {
+			return o.Kind + " " + m + " " + mask + " w" + b01(o.CreateIfAbsent) + b01(o.ExpectAbsent) + " " + o.expectedToken()
+		}
 		return o.Kind + " " + m + " " + mask
 	case "delete", "s.delete":
+		if o.Kind == "delete" && o.Expected != nil {
+			return o.Kind + " i" + hexs(o.ID) + " " + b01(o.AllowMissing) + " " + o.expectedToken()
+		}
 		return o.Kind + " i" + hexs(o.ID) + " " + b01(o.AllowMissing)
 	case "change", "s.change":
 		return fmt.Sprintf("%s i%s %d", o.Kind, hexs(o.ID), o.Now)
@@ -243,6 +262,19 @@ func (c config) line() string {
 	return "config " + a.String() + " " + ms
 }
 
+// invalid: the construction panics (WithInitialMode on a mode without id; resource.WithInitialRecord on an id
+// configured twice).
+func (c config) invalid() bool {
+	seen := map[string]bool{}
+	for _, m := range c.Modes {
+		if m.ID == "" || seen[m.ID] {
+			return true
+		}
+		seen[m.ID] = true
+	}
+	return false
+}
+
 func newWorld() *world { return newWorldCfg(config{}) }
 
 func newWorldCfg(c config) *world {
@@ -253,7 +285,11 @@ func newWorldCfg(c config) *world {
 		for i, m := range c.Modes {
 			ms[i] = m.proto()
 		}
-		opts = append(opts, electricpb.WithInitialMode(ms...))
+		// WithInitialMode is additive: the first mode through one option, the others through a second one
+		opts = append(opts, electricpb.WithInitialMode(ms[:1]...))
+		if len(ms) > 1 {
+			opts = append(opts, electricpb.WithInitialMode(ms[1:]...))
+		}
 	}
 	if c.Active != nil {
 		opts = append(opts, electricpb.WithInitialActiveMode(c.Active.proto()))
@@ -283,10 +319,20 @@ func res(m *traits.ElectricMode, withMode bool, err error) string {
 }
 
 func (o op) writeOpts() []resource.WriteOption {
+	var opts []resource.WriteOption
 	if o.HasMask {
-		return []resource.WriteOption{resource.WithUpdateMask(&fieldmaskpb.FieldMask{Paths: append([]string{}, o.Mask...)})}
+		opts = append(opts, resource.WithUpdateMask(&fieldmaskpb.FieldMask{Paths: append([]string{}, o.Mask...)}))
 	}
-	return nil
+	if o.CreateIfAbsent {
+		opts = append(opts, resource.WithCreateIfAbsent())
+	}
+	if o.ExpectAbsent {
+		opts = append(opts, resource.WithExpectAbsent())
+	}
+	if o.Expected != nil {
+		opts = append(opts, resource.WithExpectedValue(o.Expected.proto()))
+	}
+	return opts
 }
 
 func (o op) fieldMask() *fieldmaskpb.FieldMask {
@@ -319,7 +365,11 @@ func (w *world) exec(o op) (out string, err error, panicked bool) {
 			m, err = w.model.UpdateMode(o.Mode.proto(), o.writeOpts()...)
 			out = res(m, true, err)
 		case "delete":
-			err = w.model.DeleteMode(o.ID, resource.WithAllowMissing(o.AllowMissing))
+			dopts := []resource.WriteOption{resource.WithAllowMissing(o.AllowMissing)}
+			if o.Expected != nil {
+				dopts = append(dopts, resource.WithExpectedValue(o.Expected.proto()))
+			}
+			err = w.model.DeleteMode(o.ID, dopts...)
 			out = res(nil, false, err)
 		case "setactive":
 			err = w.model.SetActiveMode(o.Mode.proto())
@@ -418,4 +468,9 @@ func (w *world) stateString(s snap) string {
 		n = showMode(s.Normal)
 	}
 	return fmt.Sprintf("modes=[%s] active=%s normal=%s changed=%s", strings.Join(ms, ";"), showMode(s.Active), n, b01(w.changed))
+}
+
+func hexDecode(s string) (string, error) {
+	b, err := hex.DecodeString(s)
+	return string(b), err
 }
